@@ -101,3 +101,4 @@ pub fn offset_minutes() -> BoxedStrategy<i32> {
     ]
     .boxed()
 }
+pub mod zone;
